@@ -149,6 +149,7 @@ def x_hist(ctx, case):
     side_run, side_cur, side_outcomes = set(), None, []     # the same for a constituent behind a Tagger
     outcome_tags = []   # (test id, model tags at outcome)
     stop_tags = []      # (test id, model tags at stopTest)
+    work_new, work_gone = set(), set()
     tests = {}
     detail = lambda: {"subject": case["subject"], "history": history}  # noqa: E731
 
@@ -172,7 +173,18 @@ def x_hist(ctx, case):
             elif kind == "stopTestRun":
                 top.stopTestRun()
             elif kind == "tags":
-                top.tags(set(op[1]), set(op[2]))
+                if "TFR" in case["subject"]:
+                    # a forwarder holds tags back until the test's block is delivered: the reporter, meanwhile, goes on
+                    # using the two working sets it fills for every call
+                    work_new.clear()
+                    work_new.update(op[1])
+                    work_gone.clear()
+                    work_gone.update(op[2])
+                    top.tags(work_new, work_gone)
+                    work_new.add("reporters-scribble")
+                    work_gone.clear()
+                else:
+                    top.tags(set(op[1]), set(op[2]))
                 tgt = cur if cur is not None else run_tags
                 tgt |= set(op[1])
                 tgt -= set(op[2])
@@ -336,6 +348,78 @@ def x_tfr_fault(ctx, case):
     return True
 
 
+def x_multi_fault(ctx, case):
+    """One of several results behind a MultiTestResult fails in stopTest (a TestByTestResult whose callback writes to a
+    closed log): the error leaves stopTest() - and the test's scope is over all the same: what the test added or
+    removed is not current afterwards and does not reach later tests."""
+    import testtools
+    from .. import histories as H
+    fired = []
+
+    def hook(name, test):
+        if name == "stopTest" and not fired:
+            fired.append(1)
+            raise RuntimeError("a wrapped result raises in stopTest")
+    log_bad, log_ok = recorders.Log(hook), recorders.Log()
+    order = [H.make_leaf("ext", log_bad), H.make_leaf(case["other"], log_ok)]
+    if case["bad_last"]:
+        order.reverse()
+    multi = testtools.MultiTestResult(*order)
+    multi.startTestRun()
+    if case["run_tags"]:
+        multi.tags(set(case["run_tags"]), set())
+    a, b = testtools.PlaceHolder("A"), testtools.PlaceHolder("B")
+    multi.startTest(a)
+    multi.tags(set(case["local"]), set(case["run_tags"][:1]))
+    multi.addSuccess(a)
+    try:
+        multi.stopTest(a)
+    except RuntimeError:
+        pass
+    after = set(multi.current_tags)
+    ctx.check(after == set(case["run_tags"]), "current_tags==model-after-every-call",
+              lambda: {"after stopTest (which one wrapped result made raise)": sorted(after), "run-level tags": case["run_tags"], "case": case})
+    multi.startTest(b)
+    multi.addSuccess(b)
+    multi.stopTest(b)
+    seen = [e.payload["tags"] for e in log_ok.events if e.name == "addSuccess" and e.test == "B"]
+    # (a result listed AFTER the one that raised never got that stopTest - the call was not completed; one listed
+    # before it did, and observes the next test with the run-level tags only)
+    ctx.check((seen == [frozenset(case["run_tags"])] or not case["bad_last"]) and set(multi.current_tags) == set(case["run_tags"]),
+              "leaf-observes-reporter-tags-at-outcome",
+              lambda: {"the next test was observed with": [sorted(s) for s in seen], "want": case["run_tags"], "case": case})
+    return True
+
+
+def x_twin(ctx, case):
+    """Two instances of one kind of result (one per worker, per run, per test module): what is reported to the first -
+    tags at run level before any startTestRun(), tags inside a test, a stop() - is not the second one's."""
+    import testtools
+    first, second = Subject(case["subject"]), Subject(case["subject"])
+    a, b = first.top, second.top
+    detail = lambda: {"subject": case["subject"], "steps": case["steps"]}  # noqa: E731
+    t = testtools.PlaceHolder("t1")
+    for step in case["steps"]:
+        if step == "tags":
+            a.tags({"first-only"}, set())
+        elif step == "startTestRun":
+            a.startTestRun()
+        elif step == "startTest":
+            a.startTest(t)
+        elif step == "stop":
+            a.stop()
+        try:
+            got = set(b.current_tags)
+        except Exception as e:  # noqa
+            got = "current_tags raised %r" % (e,)
+        ctx.check(got == set(second.extra), "current_tags==model-after-every-call",
+                  lambda: {"after reporting to ANOTHER instance": step, "this instance's current_tags": got, **detail()})
+        if hasattr(b, "shouldStop"):
+            ctx.check(not b.shouldStop, "current_tags==model-after-every-call",
+                      lambda: {"after reporting to ANOTHER instance": step, "this instance's shouldStop": b.shouldStop, **detail()})
+    return True
+
+
 def x_tfr_pair(ctx, case):
     """Two (or three) forwarders sharing one target (ConcurrentTestSuite's set-up), each with run-level tags of its
     own, reporting complete tests one after the other in any order - ordinary tests, and the addSkip()+stopTest()
@@ -418,7 +502,7 @@ def x_raw_stream(ctx, case):
     return any(set(t["start"]) != set(t["end"]) for t in case["tests"])
 
 
-SUBCHECKS = {"hist": x_hist, "tfr_fault": x_tfr_fault, "tfr_pair": x_tfr_pair, "raw_stream": x_raw_stream}
+SUBCHECKS = {"hist": x_hist, "tfr_fault": x_tfr_fault, "tfr_pair": x_tfr_pair, "twin": x_twin, "multi_fault": x_multi_fault, "raw_stream": x_raw_stream}
 
 ALPHABET = [["tags", ["a"], []], ["tags", ["b"], ["a"]], ["tags", [], ["b"]], ["startTest"], ["outcome", "addSuccess"],
             ["outcome", "addError"], ["stopTest"], ["skip_nostart"], ["startTestRun"], ["placeholder", ["p"], "addSuccess"]]
@@ -507,6 +591,25 @@ def run(ctx):
                     ctx.execute("tfr_fault", {"raise_in": raise_in, "w1_run_tags": run_tags, "local": local})
     ctx.note_space("two ThreadsafeForwardingResults over one TestResult whose outcome method raises once: 6 methods x "
                    "run-level tags on/off x 2 local tag sets", n)
+    n = 0
+    for other in ("ext", "real"):
+        for bad_last in (False, True):
+            for run_tags in ([], ["r"], ["r", "s"]):
+                for local in (["loc"], ["loc", "x"]):
+                    if ctx.mine():
+                        n += 1
+                        ctx.execute("multi_fault", {"other": other, "bad_last": bad_last, "run_tags": run_tags, "local": local})
+    ctx.note_space("MultiTestResult over two results one of which raises in stopTest: 2 x 2 x 3 x 2", n)
+    n = 0
+    for subj in SUBJECTS:
+        if "E2S" in subj:
+            continue        # (a stream decorator has no tag state before its own startTestRun())
+        for steps in (["tags"], ["tags", "startTestRun", "tags"], ["startTestRun", "tags", "startTest", "tags"],
+                      ["tags", "stop"], ["startTestRun", "startTest", "tags", "stop"]):
+            if ctx.mine():
+                n += 1
+                ctx.execute("twin", {"subject": subj, "steps": steps})
+    ctx.note_space("two instances of each of the %d subjects x 5 short reports to the first" % len(SUBJECTS), n)
     n = 0
     for i in range(ctx.scale(1500, 60000)):
         nf = rng.choice([2, 2, 3])
